@@ -63,6 +63,12 @@ def run(run, binary, drv):
         drv.standard_phase(run, dev, phase="dev", extra_args=["--frac", "8" if run.tier == "quick" else "4"])
     else:
         run.inconclusive.append("dev build failed")
+    if run.tier == "thorough":
+        import sanphase
+
+        sanphase.asan_phase(run, drv, extra_args=["--frac", "4"])
+        sanphase.miri_phase(run, drv, limit=3, nshards=8)
+        sanphase.fuzz_phase(run, drv, binary, 900, "C04")
     # H1: every unchecked site must have been reached in the release phase
     h1 = {k: v for k, v in run.counters.items() if k.startswith("H1-site/")}
     run.extra_cov["H1_sites_reached"] = len(h1)
